@@ -219,7 +219,7 @@ func runCfgChild(op string) string {
 			res := fmt.Sprintf("refused:%d", code)
 			exe := filepath.Join(filepath.Dir(os.Args[0]), "cql-proxy")
 			if _, err := os.Stat(exe); err == nil {
-				ectx, ecancel := context.WithTimeout(context.Background(), 5*time.Second)
+				ectx, ecancel := context.WithTimeout(context.Background(), 15*time.Second)
 				cmd := exec.CommandContext(ectx, exe, args...)
 				err := cmd.Run()
 				ecode := 0
